@@ -1,8 +1,9 @@
 (* C23 proofs, part 3: interior-page accessors on arbitrary page bytes.
-   slot_at / key_at panic exactly when the slot announced by the stored cell_count lies beyond the page
-   (interior_slot_oob).  find_child terminates within 17 rounds on EVERY page (the window halves and the
-   stored count is below 2^16), and neither panics nor reads outside the page when the announced slot array
-   fits the page (interior_slots_fit). *)
+   For every page accepted by InteriorNode::from_page (slot geometry checked since c8c46cc) slot_at, key_at and
+   find_child return a value or an error.  find_child terminates within 17 rounds on EVERY 16 KiB byte string
+   (the window halves and the stored count is below 2^16).  The case lemmas hold for any 16 KiB byte string:
+   there slot_at / key_at take their Panic branch exactly when the announced slot lies beyond the page
+   (interior_slot_oob, the class of the former finding F-C23-3). *)
 From Coq Require Import ZArith List Bool Lia ZifyBool.
 From TV Require Import Lib.MachInt Lib.MachIntFacts Gen.PageConsts Gen.InteriorLayout
   Model.StoredBytes Model.PageAccess Proof.StoredBytes Proof.PageAccessLeaf.
@@ -52,10 +53,10 @@ Proof.
     change (256 ^ 2) with 65536 in *. split; [apply H1 | apply H2]; lia.
 Qed.
 
-Lemma interior_slot_at_panic_iff_l : forall d i, interior_from_page d = Ok tt -> bytes_ok d = true -> 0 <= i ->
+Lemma interior_slot_at_panic_iff_l : forall d i, blen d = PAGE_SIZE -> bytes_ok d = true -> 0 <= i ->
   (interior_slot_at d i = Panic <-> interior_slot_oob d i = true).
 Proof.
-  intros d i Hp Hb Hi. apply node_from_page_len in Hp.
+  intros d i Hp Hb Hi.
   destruct (interior_slot_at_cases d i Hp Hb Hi)
     as [(O & R)|[(O & _ & R)|(O & _ & _ & p & ch & co & kl & R & _)]]; rewrite O, R; split; congruence.
 Qed.
@@ -76,10 +77,10 @@ Proof.
     right. exists co, kl. rewrite sub_ok by (apply bslice_ok_true; lia). repeat split; lia.
 Qed.
 
-Lemma interior_key_at_panic_iff_l : forall d i, interior_from_page d = Ok tt -> bytes_ok d = true -> 0 <= i ->
+Lemma interior_key_at_panic_iff_l : forall d i, blen d = PAGE_SIZE -> bytes_ok d = true -> 0 <= i ->
   (interior_key_at d i = Panic <-> interior_slot_oob d i = true).
 Proof.
-  intros d i Hp Hb Hi. apply node_from_page_len in Hp.
+  intros d i Hp Hb Hi.
   destruct (interior_key_at_cases d i Hp Hb Hi) as [(O & R)|(O & [R|(co & kl & _ & _ & _ & R)])];
     rewrite O, R; split; congruence.
 Qed.
@@ -119,10 +120,10 @@ Proof.
     destruct (lex_cmp key _); apply IH; lia.
 Qed.
 
-Lemma find_child_terminates_l : forall d key, interior_from_page d = Ok tt -> bytes_ok d = true ->
+Lemma find_child_terminates_l : forall d key, blen d = PAGE_SIZE -> bytes_ok d = true ->
   find_child d key <> Fuel.
 Proof.
-  intros d key Hp Hb. apply node_from_page_len in Hp.
+  intros d key Hp Hb.
   assert (G : PH_SIZE <= blen d) by (rewrite Hp; unfold PH_SIZE, PAGE_SIZE; lia).
   unfold find_child, find_child_fuel. rewrite (cell_count_ok d G), (right_child_ok d G). cbn [bind].
   pose proof (cell_count_range d Hb G) as Hc. set (cc := le d 2 2) in *.
@@ -170,11 +171,10 @@ Proof.
   rewrite K. cbn [bind]. destruct (lex_cmp key _); assumption.
 Qed.
 
-Lemma find_child_total_l : forall d key, interior_from_page d = Ok tt -> bytes_ok d = true ->
+Lemma find_child_fit_total_l : forall d key, blen d = PAGE_SIZE -> bytes_ok d = true ->
   interior_slots_fit d = true -> value_or_error (find_child d key).
 Proof.
   intros d key Hp Hb Hf. pose proof (find_child_terminates_l d key Hp Hb) as HT.
-  apply node_from_page_len in Hp.
   assert (G : PH_SIZE <= blen d) by (rewrite Hp; unfold PH_SIZE, PAGE_SIZE; lia).
   unfold find_child, find_child_fuel in *. rewrite (cell_count_ok d G), (right_child_ok d G) in *. cbn [bind] in *.
   pose proof (cell_count_range d Hb G) as Hc. set (cc := le d 2 2) in *.
@@ -190,14 +190,38 @@ Proof.
   rewrite R. exact I.
 Qed.
 
-(* ------------------------------------------------------------------ the refutations *)
-(* a page of zeros with type byte 1 and cell_count 1365 / 65535 *)
+(* ------------------------------------------------------------------ the property, for pages from_page accepts *)
+Lemma interior_from_page_fit d : interior_from_page d = Ok tt -> blen d = PAGE_SIZE /\ interior_slots_fit d = true.
+Proof.
+  intros Hp. apply btree_from_page_inv in Hp. destruct Hp as (Hl & G). split; [exact Hl|].
+  assert (G16 : PH_SIZE <= blen d) by (rewrite Hl; unfold PH_SIZE, PAGE_SIZE; lia).
+  unfold interior_slots_fit. rewrite (cell_count_ok d G16). rewrite interior_off.
+  unfold slot_geometry_ok in G. cbv [INTERIOR_CONTENT_START PAGE_HEADER_SIZE INTERIOR_SLOT_SIZE PAGE_SIZE] in *. lia.
+Qed.
+
+Lemma interior_accessors_total_l : forall d i key, interior_from_page d = Ok tt -> bytes_ok d = true -> 0 <= i ->
+  value_or_error (interior_slot_at d i) /\ value_or_error (interior_key_at d i) /\ value_or_error (find_child d key).
+Proof.
+  intros d i key Hp Hb Hi. destruct (interior_from_page_fit d Hp) as (Hl & Hf).
+  assert (G16 : PH_SIZE <= blen d) by (rewrite Hl; unfold PH_SIZE, PAGE_SIZE; lia).
+  pose proof (interior_slots_fit_no_oob d i G16 Hf Hi) as O.
+  repeat split.
+  - destruct (interior_slot_at_cases d i Hl Hb Hi)
+      as [(O' & _)|[(_ & _ & R)|(_ & _ & _ & p & ch & co & kl & R & _)]]; [congruence | |]; rewrite R; exact I.
+  - destruct (interior_key_at_cases d i Hl Hb Hi) as [(O' & _)|(_ & [R|(co & kl & _ & _ & _ & R)])];
+      [congruence | |]; rewrite R; exact I.
+  - exact (find_child_fit_total_l d key Hl Hb Hf).
+Qed.
+
+(* ------------------------------------------------------------------ the former witnesses *)
+(* F-C23-3: zeros with type byte 1 and cell_count 1365 / 65535: the accessors would still panic, from_page turns
+   the pages away *)
 Definition interior_witness_oob : list Z := image 16384 0 [(0, [1; 0; 85; 5])].
 Definition interior_witness_search : list Z := image 16384 0 [(0, [1; 0; 255; 255])].
 
-Lemma interior_accessors_refuted_l :
-  interior_from_page interior_witness_oob = Ok tt /\ bytes_ok interior_witness_oob = true /\
-  interior_slot_at interior_witness_oob 1364 = Panic /\ interior_key_at interior_witness_oob 1364 = Panic /\
-  interior_from_page interior_witness_search = Ok tt /\ bytes_ok interior_witness_search = true /\
-  find_child interior_witness_search [] = Panic /\ find_child interior_witness_search [255] = Panic.
+Lemma interior_former_witnesses_l :
+  bytes_ok interior_witness_oob = true /\ interior_slot_at interior_witness_oob 1364 = Panic /\
+  interior_from_page interior_witness_oob = Err /\
+  bytes_ok interior_witness_search = true /\ find_child interior_witness_search [] = Panic /\
+  interior_from_page interior_witness_search = Err.
 Proof. vm_compute. repeat split. Qed.
